@@ -214,6 +214,13 @@ let model_line line =
     (match split_on_sep line with
      | [_; a; b] -> model_k a ^ " ## " ^ model_k b
      | _ -> "UNKNOWN-CASE")
+  | "H" :: _ ->
+    (* history-independence: whatever happened before, the collection behaves like its flat list *)
+    (match split_on_sep line with
+     | [_; a; e3; l] ->
+       let oa = model_k a and oe = model_k e3 and ol = model_k l in
+       String.concat " ## " [oa; oa; oa; oa; oa; oe; ol; oa]
+     | _ -> "UNKNOWN-CASE")
   | _ -> "UNKNOWN-CASE"
 
 let verdict b why = if b then "PASS" else "FAIL " ^ why
@@ -483,6 +490,28 @@ let monitor_line prop line =
        "FAIL the call did not return an error or a result: " ^ obs
      | _, "K" :: rest -> monitor_chain prop rest obs
      | _, "PAIR" :: _ -> monitor_pair prop case obs
+     | "C11", "H" :: _ ->
+       (* the property itself, on the implementation's observations alone: a never-used copy of the
+          description (0), the collection after the history (1, 2, 7) and collections derived from it
+          before the history (3, 4) behave identically; the derivation with one more provider (5) and the
+          one made after the history (6) behave like the model of their own flat lists *)
+       let strip_dbg o =
+         let n = String.length o in
+         let rec find i = if i + 7 > n then None else if String.sub o i 7 = " ; DBG " then Some i else find (i + 1) in
+         (match find 0 with Some i -> String.sub o 0 i | None -> o) in
+       (match List.map strip_dbg (split_on_sep obs), split_on_sep (model_line case) with
+        | ([o0; o1; o2; o3; o4; o5; o6; o7] as os), [_; _; _; _; _; m5; m6; _] ->
+          if List.exists (fun o -> not (starts_with 'B' o)) os then "FAIL implementation did not return an observation: " ^ obs
+          else if o1 <> o0 then "FAIL after the history the collection no longer behaves like a never-used copy of the same description: " ^ first_diff (split_ws o1) (split_ws o0)
+          else if o2 <> o1 then "FAIL binding the same collection twice gives different chains: " ^ first_diff (split_ws o2) (split_ws o1)
+          else if o3 <> o0 || o4 <> o0 then "FAIL a collection derived before the history (same providers) behaves differently from the original description"
+          else if o7 <> o0 then "FAIL the collection behaves differently once collections derived from it have been bound"
+          else
+            let same o m = (let m = strip_wf m in o = m || (starts_with 'B' o && String.length o > 8 && String.sub o 0 8 = "BIND err" && String.length m > 8 && String.sub m 0 8 = "BIND err")) in
+            if not (same o5 m5) then "FAIL a collection derived by Append before the history lost or changed its own providers: " ^ first_diff (split_ws o5) (split_ws (strip_wf m5))
+            else if not (same o6 m6) then "FAIL a collection derived after the history does not behave like its description (an earlier Bind left its mark): " ^ first_diff (split_ws o6) (split_ws (strip_wf m6))
+            else "PASS"
+        | _ -> "FAIL malformed history observation")
      | _, (("M" | "O" | "S" | "D") :: _ as toks) ->
        if obs = model_conc toks then "PASS" else "FAIL " ^ obs
      | _ -> "PASS (no monitor for this stream)")
